@@ -8,7 +8,7 @@ HOME = os.path.dirname(os.path.dirname(os.path.abspath(__file__)))
 T = {
  "C01": ("differential on generated block candidates + invariants at quiescence",
          "Executes real ProcessBlock / CheckConnectBlockTemplate on candidate blocks that are valid or violate exactly one catalogued rule (at-limit and one-past forms), in five delivery contexts on several parameter families, and observes verdicts, the active chain, the UTXO set and notifications after every delivery. Assurance: held on the executions of the run; exploration is the right level because the quantifier (all trees x all candidates x all orders) is unbounded.",
-         "Labels come from the generator's construction (one mutated field per candidate); scripts inside blocks come from templates (arbitrary programs are C06's job); mainnet-only historical exceptions are not reached.", "§4 C01, Appendix A"),
+         "Labels come from the generator's construction (one mutated field per candidate; 99 recipes incl. weight 4 000 000/+1, sigop cost 80 000/+1/+4, BIP68 time locks, CLTV/CSV operands, multiple witness commitments, height-gated rules probed on both sides of their activation height, BIP30, BIP94); scripts inside blocks come from templates (arbitrary programs are C06's job); checkpoints and mainnet-only historical exceptions are not reached.", "§4 C01, Appendix A"),
  "C02": ("model-based history checking (declarative best-chain oracle) + race detector",
          "Runs the real node on random block trees delivered in disordered, duplicated, header-interleaved orders with restarts and InvalidateBlock/ReconsiderBlock, and after every operation compares the tip with the declarative most-work valid chain and cross-checks every view and the notification stream; concurrent readers run under -race.",
          "Validity labels from the generator; orphan-pool eviction/expiry (wall clock, 100 entries) kept out of range; ties among chains none of which is the current tip accept any maximal candidate.", "§4 C02"),
@@ -17,7 +17,7 @@ T = {
          "The refchain fold is the definition; cache memory accounting accuracy is not part of the property.", "§4 C03"),
  "C04": ("crash-point injection in child processes (SIGKILL at hooked I/O events) + recovery oracle",
          "For seeded workloads and configurations, kills a real child process at sampled (quick) / many (thorough) durable I/O events under process-death and power-loss models, reopens in a fresh process and checks tip-was-active, utxo = fold, acknowledged blocks known and convergence after replay; some recoveries are themselves crashed.",
-         "leveldb atomic-durable at commit return; torn sector writes not modelled; pruning configurations not included.", "§4 C04, §9"),
+         "leveldb atomic-durable at commit return; torn sector writes not modelled; crashes during recovery are enumerated over the start-up I/O events of a recovery with a small cache (family recovery); pruning configurations included (with pruning, readability is judged at store level: has block => serves it byte-identical).", "§4 C04, §9, §12"),
  "C05": ("model differential + I/O fault and crash enumeration + porcupine serializability + race detector",
          "Random operation programs against a reference nested ordered-map/block-store model; every interposed I/O call failed once; process death / power loss at I/O events with prefix-durability oracle; concurrent readers/writers checked for snapshot stability and strict serializability (porcupine) under -race; sync-ordering trace check.",
          "leveldb internals trusted; faults injected at the hooked ffldb seams (H1).", "§4 C05, Appendix B"),
